@@ -13,6 +13,8 @@
 #include <rolling_hashx.h>
 #include <aes_gcm.h>
 #include <stddef.h>
+#include <sys/mman.h>
+#include <unistd.h>
 
 static const char *prop = "C05";
 static const char *what = "all";
@@ -74,6 +76,10 @@ static const uint8_t *mur_ref_get(int si, size_t tot)
 	return mur_ref[si][tot];
 }
 
+/* length teleport (as C15 for the managers): after update number tele_at the context's running total is advanced by tele_T
+ * (a multiple of the 1024-byte block), which is the state after tele_T more bytes as far as the length accounting goes - the
+ * library uses total_length only modulo the block size and in the final length / murmur length fields.  tele_T == 0: off. */
+static uint64_t tele_T; static int tele_at;
 /* kind: 0 mh_sha1, 1 mh_sha256, 2 mh_sha1_murmur3 ; entry 0 family symbols, 1 public isal_ */
 static int mh_stream(int kind, int f, int seed_i, const size_t *pl, int np, int place, uint8_t prefill, uint64_t poison, uint8_t *digcopy, int entry)
 {
@@ -87,7 +93,8 @@ static int mh_stream(int kind, int f, int seed_i, const size_t *pl, int np, int 
 	size_t tot = 0; int o = 0;
 	o += snprintf(shape + o, sizeof shape - o, "pieces=");
 	for (int i = 0; i < np; i++) { o += snprintf(shape + o, sizeof shape - o, "%s%zu", i ? "," : "", pl[i]); tot += pl[i]; }
-	snprintf(shape + o, sizeof shape - o, " place=%d seed#%d", place, seed_i);
+	o += snprintf(shape + o, sizeof shape - o, " place=%d seed#%d", place, seed_i);
+	if (tele_T) snprintf(shape + o, sizeof shape - o, " total+=0x%llx after piece %d", (unsigned long long)tele_T, tele_at);
 	size_t o_ctx = vk_place(&s_ctx, csz[kind], VK_END, 16, 0), o_d1, o_d2 = 0;
 	int dwords = kind == 1 ? 8 : 5;
 	vk_canary_fill(&s_ctx); memset(s_ctx.rw + o_ctx, prefill, csz[kind]);
@@ -110,6 +117,11 @@ static int mh_stream(int kind, int f, int seed_i, const size_t *pl, int np, int 
 			if ((int)r != 0) { char key[128]; snprintf(key, sizeof key, "%s:ret", n_upd); vk_violation(entry ? "C16" : prop, key, NULL, "%s returned %d for valid arguments %s", n_upd, (int)r, shape); }
 			pos += pl[i];
 			vk_stat("calls_update", 1);
+			if (tele_T && i == tele_at) {
+				uint64_t *tl = kind == 0 ? &((struct isal_mh_sha1_ctx *)ctx)->total_length : kind == 1 ? &((struct isal_mh_sha256_ctx *)ctx)->total_length : &((struct isal_mh_sha1_murmur3_x64_128_ctx *)ctx)->total_length;
+				if (*tl != pos) { char key[128]; snprintf(key, sizeof key, "%s:total_length", n_upd); vk_violation(prop, key, NULL, "%s: running total %llu after %zu bytes %s", n_upd, (unsigned long long)*tl, pos, shape); }
+				*tl += tele_T;
+			}
 		}
 		cur = n_fin;
 		uint64_t r;
@@ -123,12 +135,21 @@ static int mh_stream(int kind, int f, int seed_i, const size_t *pl, int np, int 
 	canary_report(n_fin, "ctx", &s_ctx, o_ctx, csz[kind], shape);
 	canary_report(n_fin, "digest", &s_dig, o_d1, 4 * dwords, shape);
 	if (kind == 2) canary_report(n_fin, "murmur_digest", &s_dig2, o_d2, 16, shape);
-	const uint32_t *ref = mh_ref_get(kind == 1, tot);
+	uint32_t tref[8]; uint8_t tmur[16];
+	const uint32_t *ref = tref; const uint8_t *mref = tmur;
+	if (tele_T) {
+		/* direct-mapped cache of teleported references: key (algorithm, offset, total) */
+		static struct { uint64_t T; uint32_t tot; uint8_t is256, ok; uint32_t d[8]; } *tc; enum { TCN = 1 << 18 };
+		if (!tc) tc = calloc(TCN, sizeof *tc);
+		uint64_t kk[3] = { tele_T, tot, kind == 1 }; size_t ci = vk_hash(kk, sizeof kk, 3) & (TCN - 1);
+		if (!(tc[ci].ok && tc[ci].T == tele_T && tc[ci].tot == tot && tc[ci].is256 == (kind == 1))) { ref_mh_ext(kind == 1, pool, tot, tele_T, tc[ci].d); tc[ci].T = tele_T; tc[ci].tot = (uint32_t)tot; tc[ci].is256 = kind == 1; tc[ci].ok = 1; vk_stat("reference_computations", 1); }
+		memcpy(tref, tc[ci].d, sizeof tref); if (kind == 2) ref_murmur3_x64_128_ext(pool, tot, mur_seeds[seed_i], tele_T, tmur); vk_stat("teleported_streams", 1); }
+	else { ref = mh_ref_get(kind == 1, tot); if (kind == 2) mref = mur_ref_get(seed_i, tot); }
 	if (memcmp(s_dig.rw + o_d1, ref, 4 * dwords)) {
 		char key[160]; snprintf(key, sizeof key, "%s:mh_digest", n_upd);
 		vk_violation(kind == 2 ? "C10" : "C05", key, NULL, "%s/%s multi-hash digest differs from the definition (total %zu) %s", n_upd, n_fin, tot, shape);
 	}
-	if (kind == 2 && memcmp(s_dig2.rw + o_d2, mur_ref_get(seed_i, tot), 16)) {
+	if (kind == 2 && memcmp(s_dig2.rw + o_d2, mref, 16)) {
 		char key[160]; snprintf(key, sizeof key, "%s:murmur", n_upd);
 		vk_violation("C10", key, NULL, "%s/%s murmur3_x64_128 differs from MurmurHash3 reference (total %zu, seed %llx) %s", n_upd, n_fin, tot, (unsigned long long)mur_seeds[seed_i], shape);
 	}
@@ -192,6 +213,86 @@ static void mh_sweep(int kind)
 	}
 	/* public dispatched entry points once per total length class (legacy twins are checked in E4) */
 	if (vk_shard == 0 && !guard_mode && !pair_mode && !vk_want_trace) for (size_t l1 = 0; l1 <= 1100; l1 += 7) { size_t pl[2] = { l1, 1100 - l1 }; mh_stream(kind, 0, 0, pl, 2, VK_MID, 0, 0x5a5a5a5a5a5a5a5aULL, NULL, 1); }
+}
+
+/* totals crossing 2^29 (bit length needs more than 32 bits), 2^31 and ending just below 2^32 (the property's limit), at every
+ * interesting residue of the 1024-byte block, with the crossing inside the second piece or inside finalize */
+static void mh_tele_sweep(int kind)
+{
+	static const uint64_t X[] = { 1ULL << 29, 1ULL << 31, (1ULL << 32) - 4096, 1ULL << 24, 1ULL << 16 };
+	long item = 0; int nseeds = kind == 2 ? 5 : 1;
+	for (unsigned xi = 0; xi < (vk_thorough ? 5 : 3); xi++) for (int j = 0; j <= (vk_thorough ? 2 : 1); j++) {
+		uint64_t T = X[xi] - 1024ULL * j;
+		size_t step = vk_thorough ? 1 : 7;
+		for (size_t l1 = 0; l1 <= 1040; l1 += (l1 < 70 || (l1 > 950 && l1 < 1040) ? 1 : step)) {
+			if (item++ % vk_nshards != vk_shard) continue;
+			if (vk_deadline_hit()) { vk_stat("deadline_skipped", 1); continue; }
+			for (int f = 0; f < 5; f++) {
+				if (!vk_host_can(mh_need[f])) continue;
+				if (vk_only && strcmp(mh_fams[f], vk_only)) continue;
+				static const size_t L2[] = { 0, 1, 15, 16, 17, 63, 64, 65, 959, 960, 1007, 1008, 1015, 1016, 1017, 1023, 1024, 1025, 2047, 2048, 2049, 3000 };
+				for (unsigned i2 = 0; i2 < sizeof L2 / sizeof *L2; i2++) {
+					size_t pl[2] = { l1, L2[i2] };
+					if (T + l1 + L2[i2] > 0xffffffffULL) continue;
+					size_t r = 1024 - l1 % 1024;
+					for (int at = 0; at <= 1; at++) {
+						tele_T = T; tele_at = at;
+						mh_stream(kind, f, (int)((l1 + i2) % nseeds), pl, 2, VK_MID, 0xa5, 0x5a5a5a5a5a5a5a5aULL, NULL, 0);
+						if (i2 == 0) { size_t p3[2] = { l1, r }; mh_stream(kind, f, 0, p3, 2, VK_MID, 0xa5, 0x5a5a5a5a5a5a5a5aULL, NULL, 0); }
+					}
+					tele_T = 0;
+				}
+			}
+		}
+	}
+	tele_T = 0;
+}
+
+/* genuine long streams (thorough): validates the teleport argument on the real update path.  A window of address space is
+ * aliased 1 MiB-wise onto one small memfd, so the stream costs no memory; the reference reads the same window. */
+static void mh_big(int kind)
+{
+	const size_t MB = 1 << 20; size_t total_map = (1ULL << 29) + 2 * MB;
+	int fd = memfd_create("periodic", 0);
+	if (fd < 0 || ftruncate(fd, MB)) { vk_note("memfd unavailable: genuine long streams skipped"); return; }
+	uint8_t *pat = mmap(NULL, MB, PROT_READ | PROT_WRITE, MAP_SHARED, fd, 0);
+	for (size_t i = 0; i < MB; i++) pat[i] = (uint8_t)(vk_hash(&i, sizeof i, 77) >> 11);
+	uint8_t *R = mmap(NULL, total_map, PROT_NONE, MAP_PRIVATE | MAP_ANONYMOUS | MAP_NORESERVE, -1, 0);
+	if (R == MAP_FAILED) { vk_note("cannot reserve address space: genuine long streams skipped"); return; }
+	for (size_t o = 0; o < total_map; o += MB) if (mmap(R + o, MB, PROT_READ, MAP_SHARED | MAP_FIXED, fd, 0) == MAP_FAILED) { vk_note("aliased mapping failed: genuine long streams skipped"); return; }
+	static const char *kn[3] = { "mh_sha1", "mh_sha256", "mh_sha1_murmur3_x64_128" };
+	static const size_t csz[3] = { sizeof(struct isal_mh_sha1_ctx), sizeof(struct isal_mh_sha256_ctx), sizeof(struct isal_mh_sha1_murmur3_x64_128_ctx) };
+	size_t p1 = (1ULL << 29) - 37, p2 = 1061, tot = p1 + p2;    /* crosses 2^29 inside the second update; 1024-residue 0 */
+	uint32_t ref[8]; uint8_t mref[16]; int have_ref = 0;
+	int dwords = kind == 1 ? 8 : 5;
+	for (int f = 0; f < 5; f++) {
+		if (f % vk_nshards != vk_shard) continue;
+		if (!vk_host_can(mh_need[f])) continue;
+		if (vk_only && strcmp(mh_fams[f], vk_only)) continue;
+		if (vk_deadline_hit()) { vk_stat("deadline_skipped", 1); continue; }
+		if (!have_ref) { ref_mh_ext(kind == 1, R, tot, 0, ref); if (kind == 2) ref_murmur3_x64_128_ext(R, tot, mur_seeds[4], 0, mref); have_ref = 1; }
+		char n_init[80], n_upd[80], n_fin[80];
+		snprintf(n_init, 80, "_%s_init", kn[kind]); snprintf(n_upd, 80, "_%s_update_%s", kn[kind], mh_fams[f]); snprintf(n_fin, 80, "_%s_finalize_%s", kn[kind], mh_fams[f]);
+		void *f_init = vk_sym(n_init), *f_upd = vk_sym(n_upd), *f_fin = vk_sym(n_fin);
+		if (!f_init || !f_upd || !f_fin) { vk_stat("missing_symbol", 1); continue; }
+		size_t o_ctx = vk_place(&s_ctx, csz[kind], VK_END, 16, 0); uint8_t *ctx = s_ctx.rw + o_ctx; memset(ctx, 0xa5, csz[kind]);
+		uint8_t dig[32], mur[16]; const char *volatile cur = n_init;
+		vk_alarm(600000);
+		if (VK_TRY()) {
+			if (kind == 2) VCALLN(f_init, n_init, AP(ctx), A64(mur_seeds[4])); else VCALLN(f_init, n_init, AP(ctx));
+			cur = n_upd;
+			VCALLN(f_upd, n_upd, AP(ctx), AP(R), A32(p1));
+			VCALLN(f_upd, n_upd, AP(ctx), AP(R + p1), A32(p2));
+			cur = n_fin;
+			if (kind == 2) VCALLN(f_fin, n_fin, AP(ctx), AP(dig), AP(mur)); else VCALLN(f_fin, n_fin, AP(ctx), AP(dig));
+			VK_END_TRY();
+		} else { vk_alarm(0); fault_report(cur, "genuine stream of 2^29+1024 bytes"); continue; }
+		vk_alarm(0);
+		vk_stat("genuine_long_streams", 1);
+		if (memcmp(dig, ref, 4 * dwords)) { char key[160]; snprintf(key, sizeof key, "%s:mh_digest_long", n_upd); vk_violation(kind == 2 ? "C10" : "C05", key, NULL, "%s: multi-hash digest of a genuine %zu-byte stream (pieces %zu,%zu) differs from the definition", n_upd, tot, p1, p2); }
+		if (kind == 2 && memcmp(mur, mref, 16)) { char key[160]; snprintf(key, sizeof key, "%s:murmur_long", n_upd); vk_violation("C10", key, NULL, "%s: murmur3 of a genuine %zu-byte stream differs from the reference", n_upd, tot); }
+	}
+	munmap(R, total_map); munmap(pat, MB); close(fd);
 }
 
 /* ================= rolling hash (C09) ================= */
@@ -615,9 +716,10 @@ int main(int argc, char **argv)
 	vk_slot_init(&s_tag, "tag", 4096, 0); vk_slot_init(&s_misc, "misc", 4096, 0);
 	pool = malloc(POOL); vk_fill(pool, POOL, 0xda7a);
 	/* the multi-hash streams are prefixes of the pool placed so that the stream end is flush with the guard page */
-	if (want("mh1")) { /* stream placement: end of slot = end of the longest stream; per-stream the start moves */ mh_sweep(0); }
-	if (want("mh256")) mh_sweep(1);
-	if (want("mur")) mh_sweep(2);
+	int functional = !guard_mode && !pair_mode && !secrets_mode && !vk_want_trace;
+	if (want("mh1")) { /* stream placement: end of slot = end of the longest stream; per-stream the start moves */ mh_sweep(0); if (functional) { mh_tele_sweep(0); if (vk_thorough) mh_big(0); } }
+	if (want("mh256")) { mh_sweep(1); if (functional) { mh_tele_sweep(1); if (vk_thorough) mh_big(1); } }
+	if (want("mur")) { mh_sweep(2); if (functional) { mh_tele_sweep(2); if (vk_thorough) mh_big(2); } }
 	if (want("roll")) roll_sweep();
 	if (want("blocks") && vk_shard == 0 && !vk_want_trace) blocks_sweep();
 	if (want("gcms")) gcms_sweep();
